@@ -52,17 +52,7 @@ def _sa_case(d):
     return case, det, content, text
 
 
-@classifier('sa-parity-ignores-encoding')
-def sa_parity_ignores_encoding(d):
-    """C08: an explicit single-byte `encoding` is given; everything reassembles, only the parity byte is the XOR of the
-    message under the default text->bytes policy instead of under the requested encoding."""
-    if d['kind'] != 'sequence':
-        return False
-    case, det, content, text = _sa_case(d)
-    if det['symptoms'] != ['parity-wrong'] or not case['kw'].get('encoding') or isinstance(content, (bytes, bytearray)):
-        return False
-    return det.get('parity') is not None and det.get('parity') == det.get('parity_default_policy') \
-        and det.get('parity') != det.get('parity_expected')
+# sa-parity-ignores-encoding: repaired in the repository (b8cfeda); a fixed entry suppresses nothing, the classifier is gone.
 
 
 @classifier('sa-char-chunks-per-chunk-encoding')
@@ -75,6 +65,10 @@ def sa_char_chunks(d):
     if isinstance(content, (bytes, bytearray, int)) or det.get('mode') != 'byte':
         return False
     if not set(det['symptoms']) <= {'chunk-overflow', 'payload-mismatch', 'parity-wrong'}:
+        return False
+    # every symbol must carry exactly what the pinned policy yields for its chunk (the text cut by characters, each
+    # chunk encoded on its own): other bytes in the symbols are another defect
+    if det.get('per_chunk_policy') is not True:
         return False
     return det.get('expected_len') is not None and det['expected_len'] != len(text)
 
@@ -90,6 +84,8 @@ def sa_version_count(d):
     case, det, content, text = _sa_case(d)
     kw = case['kw']
     if det['symptoms'] != ['chunk-overflow'] or kw.get('version') is None:
+        return False
+    if det.get('per_chunk_policy') is False:      # None: bytes content (cut by bytes, nothing to re-encode)
         return False
     mode = det.get('mode')
     if mode is None:
